@@ -20,7 +20,7 @@ MANIFEST = {
 
 BOUNDS = {
     'quick': {'cms': [(1, 1, 3), (1, 2, 3), (2, 2, 2), (2, 3, 3)], 'counter': [(4, 3)]},
-    'thorough': {'cms': [(1, 1, 4), (1, 3, 4), (2, 2, 4), (2, 3, 4), (3, 2, 3)], 'counter': [(5, 4), (6, 3)]},
+    'thorough': {'cms': [(1, 1, 5), (1, 3, 5), (2, 2, 5), (2, 3, 5), (3, 2, 4), (3, 4, 4), (2, 5, 4)], 'counter': [(6, 4), (7, 3)]},
 }
 NITEMS = 3
 WMAX = 5
@@ -45,6 +45,8 @@ class Mat:
 
     def __getitem__(self, k):
         if isinstance(k, tuple):
+            if isinstance(k[0], xnp.Arr):          # M[row index array, column index array]
+                return xnp.Arr([self.rows[int(i)][j] for i, j in zip(k[0].data, k[1].data)], 'int32')
             return self.rows[k[0]][k[1]]
         return self.rows[k]
 
@@ -64,6 +66,7 @@ def load_cms():
     npm.int32 = 'int32'
     npm.zeros = lambda shape, dtype=None: Mat(*shape)
     npm.array = lambda x, dtype=None: x
+    npm.arange = xnp.arange
     npm.random = types.SimpleNamespace(randint=lambda **k: [0] * k['size'])
     ns = loader.load('outrank/algorithms/sketches/counting_cms.py', shims={'numpy': npm, 'numba': loader.numba_stub()},
                      extra={'hash': lambda it: it.h}, record=['cms_hash', 'CountMinSketch', 'CountMinSketch._add', 'CountMinSketch.add', 'CountMinSketch.batch_add', 'CountMinSketch.query'])
@@ -96,6 +99,8 @@ def jobs(tier):
     for s, bd in BOUNDS[tier]['counter']:
         for b in range(bd + 1):
             out.append({'cond': 'counter', 's': s, 'bound': b, 'weight': 4 ** s, 'label': f's={s},bound={b}'})
+    for b in (1, 2, 3):
+        out.append({'cond': 'pipeline-counter', 's': 4, 'bound': b, 'weight': 5 ** 4 * 4, 'label': f'pipeline-counter,bound={b}'})
     return out
 
 
@@ -127,7 +132,7 @@ def run_cms(job):
     def body(ctx, out):
         o = object.__new__(CMS)
         o.depth, o.width = d, w
-        o.hash_seeds = [SInt(v, 0, 2 ** 32 - 1) for v in st['seed']]
+        o.hash_seeds = xnp.Arr([SInt(v, 0, 2 ** 32 - 1) for v in st['seed']], 'uint32')      # a uint32 numpy array in the real object
         o.M = Mat(d, w)
         items = [Item(SInt(h, -2 ** 63, 2 ** 63 - 1)) for h in st['h']]
         for k in range(S):
@@ -190,12 +195,63 @@ def run_counter(job):
     return hutil.run_symx(job, setup, body)
 
 
+def run_pipeline_counter(job):
+    """the bounded counter as the pipeline feeds it (compute_cardinalities over a history of mini-batches): same three clauses"""
+    from harness import C13
+    from harness import pipeline as PL
+    cr, cu, tr, ie = PL.real_modules()
+    loader.record_functions('outrank/core_ranking.py', ['compute_cardinalities'])
+    VALS = ['a', 'b', 'c', 'd', '']
+    S, B = job['s'], job['bound']
+    comps = C13.compositions(S)
+    st = {}
+
+    def setup(ctx):
+        st['idx'] = [z3.Int(f'v{k}') for k in range(S)]
+        for v in st['idx']:
+            ctx.assume(v >= 0, v < len(VALS))
+        st['comp'] = z3.Int('comp')
+        ctx.assume(st['comp'] >= 0, st['comp'] < len(comps))
+
+    def body(ctx, out):
+        stream = [VALS[int(SInt(v, 0, len(VALS) - 1))] for v in st['idx']]
+        cuts = comps[int(SInt(st['comp'], 0, len(comps) - 1))]
+        rows = [[v] for v in stream]
+        w = {'cond': 'pipeline-counter', 'bound': B, 'stream': stream, 'cuts': cuts}
+        try:
+            got = C13.run_batches(cr, cu, rows, ['fa'], cuts, 1, ',{}', hist_bound=B)
+            dc = got['hist']['fa']
+            seen = Counter(stream)
+            distinct_before_full = len(seen) < B
+            bad = any(dc[x] > seen[x] for x in dc) or len(dc) > B or (distinct_before_full and dict(dc) != dict(seen))
+            probs = [f'tracked {dict(dc)} vs exact {dict(seen)} with bound {B}'] if bad else []
+        except Exception as e:
+            probs = [f'{type(e).__name__}: {e}']
+        if probs or out.twin:
+            out.concrete_fail(w, probs[0] if probs else 'twin')
+        else:
+            out.concrete_ok()
+        out.sample(w)
+    return hutil.run_symx(job, setup, body)
+
+
 def run_job(job):
+    if job['cond'] == 'pipeline-counter':
+        return run_pipeline_counter(job)
     return run_cms(job) if job['cond'] == 'cms' else run_counter(job)
 
 
 def replay(w):
     loader.use_repo_on_syspath()
+    if w['cond'] == 'pipeline-counter':
+        from harness import C13
+        from harness import pipeline as PL
+        cr, cu, tr, ie = PL.real_modules()
+        got = C13.run_batches(cr, cu, [[v] for v in w['stream']], ['fa'], w['cuts'], 1, ',{}', hist_bound=w['bound'])
+        dc, seen = got['hist']['fa'], Counter(w['stream'])
+        if any(dc[x] > seen[x] for x in dc) or len(dc) > w['bound'] or (len(seen) < w['bound'] and dict(dc) != dict(seen)):
+            return {'reproduced': True, 'signature': 'C15:bounded-counter-in-pipeline', 'what': f'compute_cardinalities over batches {w["cuts"]} of {w["stream"]} with bound {w["bound"]}: tracked {dict(dc)} vs exact {dict(seen)}'}
+        return {'reproduced': False, 'what': 'within contract'}
     if w['cond'] == 'counter':
         from outrank.algorithms.sketches.counting_counters_ordinary import PrimitiveConstrainedCounter as PCC
         VALS = ['a', 'b', '', 7]
